@@ -125,6 +125,56 @@ def run(ck, F):
                 ck.fail(R_redecl, inst, f'{inst}: second request explores {sorted(kinds)} instead of the three histories '
                         '(redeclaration / new type / new name)', loc=f['loc'], fn=f['id'])
 
+    # ------------------------------------------------------------ a refused request leaves the scope as it was
+    R_ref = ck.rule('C07.refusal-leaves-scope', 'a Scope::make_* request that is refused (it throws: an argument node refuses to give its '
+                    'type, a consistency test of the request fails) has not yet entered anything into the scope: no overload set, entry, '
+                    'master data or declaration was created on that path -- otherwise a name that was never declared looks up as an '
+                    'overload set, or a decl-set holds a declaration the scope does not list', floor=8)
+    Sr = Sym(F, opaque=keyrule.key_opaque(F), max_depth=64)
+
+    def client_accessor_may_refuse(target, recv, args, st2):
+        # a virtual accessor of a node the client handed in may refuse with std::logic_error (C14)
+        if recv is not None and target.endswith(' const') and not args:
+            t = recv
+            while isinstance(t, tuple) and t and t[0] in ('deref', 'addr', 'castto', 'fld'):
+                t = t[2] if t[0] == 'castto' else t[1]
+            if isinstance(t, tuple) and t[:1] == ('param',):
+                st2.throw = 'std::logic_error'
+                return [st2]
+        return []
+    Sr.opaque_outcomes = client_accessor_may_refuse
+
+    def entered(st, base):
+        out = []
+        for e in st.effects[base:]:
+            if e[0] == 'tree_insert' and e[4] is not None:
+                out.append('a new element of ' + contracts.render(e[1], st, {})[:50])
+            elif e[0] in ('emplace', 'chain_insert'):
+                out.append(('an element of ' if e[0] == 'emplace' else 'an entry in ') + contracts.render(e[2] if e[0] == 'emplace' else e[1], st, {})[:50])
+            elif e[0] == 'call' and contracts.fn_simple(e[1]) in ('push_back', 'emplace_back'):
+                out.append('an element appended to ' + contracts.render(e[2], st, {})[:50])
+        return out
+    for f in makers:
+        inst = 'Scope::' + f['name']
+        try:
+            firsts = Sr.run(f['id'])
+            allp = [(None, r) for r in firsts]
+            for st1, k1, _v1 in firsts:
+                if k1 == 'return':
+                    allp += [(st1, r) for r in Sr.run(f['id'], args=keyrule.qparams(len(f['params'])), state=st1.fork())]
+        except Unsupported as e:
+            raise AnalysisBroken(f'{f["id"]}: outside the evaluator language: {e}')
+        bad = []
+        for st1, (st, k, v) in allp:
+            if k != 'throw':
+                continue
+            what = entered(st, len(st1.effects) if st1 is not None else 0)
+            if what:
+                when = contracts.render_conds(st.conds[(len(st1.conds) if st1 is not None else 0):], st, {})[:80]
+                bad.append(f'refuses with {contracts.short(str(v))} ({"on a populated scope, " if st1 is not None else ""}when {when or "an argument refuses"}) '
+                           f'after having created {sorted(set(what))[:3]}')
+        ck.check(R_ref, inst, not bad, f'{f["id"]}: ' + '; '.join(sorted(set(bad))[:2]), loc=f['loc'], fn=f['id'])
+
     # ------------------------------------------------------------ comparators (KEY)
     K = keyrule.KeyChecker(ck, F, 'C07')
     tables = set()
